@@ -4,6 +4,10 @@ from vlib.core import num, s, b, arr, OPS
 
 NAN = float('nan')
 INF = float('inf')
+# sizes around the thresholds an optimisation would pick (inline capacity, block size, table size, u8 counter): every structure - a chain of operators, a list of elements or arguments,
+# a nesting of conditionals, a set of names - is exercised just below, at and just above each of them
+SIZES = [7, 8, 9, 15, 16, 17, 18, 31, 32, 33, 34, 63, 64, 65, 66, 100, 127, 128, 129, 255, 256, 257]
+SIZES_BIG = SIZES + [511, 512, 513, 1000, 1023, 1024, 1025]
 
 
 def fn(name, kind, arity, pure=1):
@@ -107,6 +111,48 @@ def gen_eval(tier, R):
         return f"(call {R.choice([s('echo'), s('k'), s('boom'), s('nofn')])} " + " ".join(rnd(d-1) for _ in range(R.randint(0, 3))) + ")"
     for _ in range(8000 if tier == 'quick' else 400000):
         case(rnd(R.randint(2, 6 if tier == 'quick' else 8)))
+    # sizes: left-nested chains of n operands under one operator - all of one kind, then with one mistyped operand and a failing one (undefined variable, failing call) behind it:
+    # the error is that of the FIRST failing operation in evaluation order, and nothing behind it is evaluated, whatever the length of the chain
+    L = lambda v: f"(lit {v})"
+    def chain(o, items):
+        e = items[0]
+        for x in items[1:]:
+            e = f"(bin {o} {e} {x})"
+        return e
+    sizes = SIZES if tier == 'quick' else SIZES_BIG
+    for n in sizes:
+        for o, good, bad in (("plus", L(num(1.0)), L(b(True))), ("plus", L(s("a")), L(num(1.0))), ("plus", f"(arr {L(num(1.0))})", L(num(2.0))), ("minus", L(num(1.0)), L(s("a"))),
+                             ("multiply", L(num(1.0)), L(b(False))), ("and", L(b(True)), None), ("or", L(b(False)), None), ("xor", L(b(True)), L(num(1.0)))):
+            case(chain(o, [good] * n))
+            fails = [f"(var {s('u')})", f"(call {s('boom')} {L(num(2.0))})", f"(call {s('echo')} (var {s('y')}))"]
+            for pos_bad in sorted({1, n // 2, n - 2}):
+                for pos_fail in sorted({pos_bad + 1, n - 1}):
+                    if bad is None or not (0 < pos_bad < pos_fail < n):
+                        continue
+                    items = [good] * n
+                    items[pos_bad] = bad
+                    items[pos_fail] = fails[(n + pos_bad) % 3]
+                    case(chain(o, items))
+            items = [good] * n
+            items[n - 1] = fails[n % 3]
+            case(chain(o, items))
+            if o in ("and", "or"):
+                items = [good] * n
+                items[n // 2] = L(b(o == "or"))          # decides the chain: nothing behind it runs
+                items[n - 1] = f"(call {s('boom')} {L(num(1.0))})"
+                case(chain(o, items))
+    # sizes: arrays and argument lists of n elements in which one element fails - at every kind of position (first, block boundaries, last) - among elements that leave a trace
+    for n in sizes:
+        if n > 300:
+            continue
+        for wrap in ("arr", "call"):
+            for p in sorted({0, 1, 6, 7, 8, 15, 16, 31, 32, n // 2, n - 2, n - 1}):
+                if not (0 <= p < n):
+                    continue
+                for bad in (f"(call {s('boom')} {L(num(float(p)))})", f"(var {s('u')})", f"(bin plus {L(num(1.0))} {L(b(True))})"):
+                    items = [f"(call {s('echo')} {L(num(float(i)))})" if i % 3 else f"(var {s('x')})" for i in range(n)]
+                    items[p] = bad
+                    case(("(arr " if wrap == "arr" else f"(call {s('echo')} ") + " ".join(items) + ")")
     return out
 
 
@@ -152,6 +198,25 @@ def gen_boolcheck(tier, R):
                 for _ in range(d):
                     e = f"(ter ternaryCondition (var {s('f')}) (lit (b 1)) {e})" if side == 0 else f"(ter ternaryCondition (var {s('t')}) {e} (lit (b 0)))"
                 cases.append(e)
+    # sizes: conditionals nested d deep through the then-, the else- or the condition position, with one offending leaf either at the very bottom or in the OUTERMOST slot that is still pending when
+    # the walk is d levels down (a walk that hands over to another routine at some depth, or keeps a fixed-size work list, loses exactly those)
+    T, F, X1, L_f = "(lit (b 1))", "(lit (b 0))", f"(var {s('t')})", f"(var {s('f')})"
+    for d in (list(range(1, 41)) + [48, 63, 64, 65, 100]) if tier == 'quick' else list(range(1, 130)):
+        for bad in (f"(lit {num(1.0)})", f"(lit {s('a')})", f"(bin plus (var {s('x')}) (lit {num(1.0)}))"):
+            for pos in ("then", "else", "cond"):
+                for where in ("bottom", "outer", "outer-selected"):
+                    # "outer-selected": the conditions are such that execution really takes the offending branch (then the accepted tree visibly yields a non-Boolean)
+                    sel = where == "outer-selected"
+                    e = bad if where == "bottom" else (F if (sel and pos == "cond") else T)
+                    for lvl in range(d):
+                        outer_bad = bad if (where != "bottom" and lvl == d - 1) else None
+                        if pos == "then":
+                            e = f"(ter ternaryCondition {(L_f if (sel and outer_bad) else X1)} {e} {outer_bad or F})"
+                        elif pos == "else":
+                            e = f"(ter ternaryCondition {(X1 if (sel and outer_bad) else L_f)} {outer_bad or T} {e})"
+                        else:
+                            e = f"(ter ternaryCondition {e} {T} {outer_bad or F})"
+                    cases.append(e)
     return [f"(case _ {ENV_BASIC} {e})" for e in cases]
 
 
@@ -302,6 +367,28 @@ def gen_opt(tier, R, kind='opt'):
         for fname in ('echo', 'imp', 'nofn'):
             out.append(f"({kind} _ {env([('x', num(2.0))], OPT_FNS_S)} (call {s(fname)} {args}))")
             out.append(f"({kind} _ {env([('x', num(2.0))], OPT_FNS_S)} (bin plus (arr (call {s(fname)} {args})) (arr {X})))")
+    # sizes: lists (array elements, call arguments) of n members in which ONE member is special - a constant sub-tree that needs two passes, an unknown variable or function, a call outside its arity,
+    # a non-literal among literals - at the first, a middle, the last positions and at block boundaries; and k DISTINCT pure calls in one tree followed by a repeat of the first
+    sizes = SIZES if tier == 'quick' else SIZES_BIG
+    two_pass = f"(bin plus (bin plus {L(num(1.0))} {L(num(2.0))}) {L(num(3.0))})"
+    specials_sz = [two_pass, f"(var {s('nosuchvar')})", f"(call {s('nofn')} {L(num(1.0))})", f"(call {s('p1')})", f"(call {s('p1')} {L(num(1.0))} {L(num(2.0))})", X, f"(un minus {L(num(0.0))})",
+                   f"(call {s('imp')} {L(num(1.0))})", f"(call {s('if_then')} {L(b(True))} {L(num(1.0))} {L(num(2.0))})"]
+    for n in sizes:
+        if n > 300 and tier == 'quick':
+            continue
+        for sp in specials_sz:
+            for p_ in sorted({0, 7, 8, 15, 16, 31, 32, 63, 64, n // 2, n - 2, n - 1}):
+                if not (0 <= p_ < n):
+                    continue
+                items = [L(num(float(i_ % 10))) for i_ in range(n)]
+                items[p_] = sp
+                for wrap in (lambda t: f"(arr {t})", lambda t: f"(call {s('echo')} {t})", lambda t: f"(bin plus (arr {t}) (arr {X}))"):
+                    out.append(f"({kind} _ {env([('x', num(2.0))], OPT_FNS_S)} {wrap(' '.join(items))})")
+    for k_ in (15, 16, 17, 18, 31, 32, 33, 34, 63, 64, 65, 66, 100, 129, 257):
+        calls = [f"(call {s('echo')} {L(num(float(i_)))})" for i_ in range(k_)]
+        for tail in ([calls[0]], [calls[0], calls[1]], [calls[k_ // 2]], [f"(call {s('echo')} {L(s('0'))})"]):
+            out.append(f"({kind} _ {env([('x', num(2.0))], OPT_FNS_S)} (arr {' '.join(calls + tail)}))")
+            out.append(f"({kind} _ {env([('x', num(2.0))], OPT_FNS_S)} (arr {' '.join(calls + [X] + tail)}))")
     N = 12000 if tier == 'quick' else 500000
     i = 0
     while i < N:
@@ -339,6 +426,23 @@ def gen_rebind(tier, R):
         n1, n2 = R.choice(names)
         e = R.choice(exprs)(R.choice([n1, n2]))
         out.append(f"(rebind _ (vars ({s(n1)} {R.choice(vals)}) ({s(n2)} {R.choice(vals)})) (vars ({s(R.choice([n1, n2]))} {R.choice(vals)})) {e})")
+    return out
+
+
+def gen_illformed_sizes(tier, R):
+    """C08: lists of n members with a member that is not a literal (or is ill-formed) in the last positions, through every entry point"""
+    out = []
+    lit = lambda i: f"(lit {num(float(i % 7))})"
+    tails = [f"(var {s('k')})", f"(var {s('u')})", f"(un minus {lit(1)})", f"(un plus {lit(1)})", f"(bin not {lit(1)} {lit(2)})", f"(call {s('nofn')})", f"(lit {num(NAN)})", f"(lit {arr(num(1.0))})"]
+    for n in (SIZES if tier == 'quick' else SIZES_BIG):
+        for t in tails:
+            for p_ in sorted({n - 1, n - 2, n - 7, n // 2, 0}):
+                if not (0 <= p_ < n):
+                    continue
+                items = [lit(i) for i in range(n)]
+                items[p_] = t
+                out.append(f"(arr {' '.join(items)})")
+                out.append(f"(call {s('echo')} {' '.join(items)})")
     return out
 
 
@@ -392,4 +496,5 @@ def gen_illformed(tier, R):
         return f"(call {s(R.choice(names))} {rnd(d-1)} {R.choice(leaves)})"
     for _ in range(3000 if tier == 'quick' else 100000):
         out.append(rnd(R.randint(3, 40 if tier == 'quick' else 60)))
+    out += gen_illformed_sizes(tier, R)
     return [f"(tot _ {envs} {e})" for e in out] + [f"(wide _ {n})" for n in ((10, 1000, 100000) if tier == 'quick' else (10, 1000, 20000, 100000, 400000))]
